@@ -150,6 +150,13 @@ func c15(c *q.Ctx) {
 		c.Effect(io, q.Eff{Spec: "List.Remove", Arg: 0, Glob: el, Req: []q.Cond{{Canon: "(i:QuorumCertInterface.GetProposalView(p0.Root.In) < i:QuorumCertInterface.GetProposalView(" + el + ".Value.In))", Sense: false}},
 			Why: "an orphan subtree is dropped as expired on ITS OWN head's view (not on the view of the node being inserted): live orphans stay adoptable, stale ones do not pile up", Rule: "K2"})
 	}
+	if io != nil {
+		// an arrival whose parent waits INSIDE an orphan subtree hangs under that parent (the node the search found), not
+		// under the subtree's head; an arrival that is the parent of a waiting head takes that head as its son
+		par := "chained_bft.DFSQuery(*,i:QuorumCertInterface.GetParentProposalId(p1.In))"
+		c.StoreIs(io, "ProposalNode.Sons", "append("+par+".Sons,[p1]) OR append(p1.Sons,[*])", 2, "sons are appended to the found parent, or to the arriving node")
+		c.FieldStore(io, "ProposalNode.Sons", par, "append("+par+".Sons,[p1])", "the arrival is stored under the node the search found")
+	}
 	ao := c.Fn(bft + "(*QCPendingTree).adoptOrphans")
 	if ao != nil {
 		c.DeadAfter(ao, "List.Remove", 0, 1, "the walk over the orphan list steps to the next element before it unlinks the current one")
